@@ -402,6 +402,11 @@ class Script:
                 ctx.fault("rotation_axis_extreme")
                 if m == 0:
                     return draw() * 1e-6 + 1e-9
+                if m == 3 and self.rng.random() < 0.5:
+                    # a direction of ALMOST unit length (a legal draw from the cube): where a "looks normalised" shortcut bites
+                    v = np.array([self.rng.gauss(0, 1) for _ in range(3)])
+                    v /= np.linalg.norm(v)
+                    return v * (1 + self.rng.choice([-1, 1]) * 10 ** self.rng.uniform(-9, -6.3)) * (1 - 1e-12)
                 ax = np.zeros(3)
                 ax[m - 1] = 1.0 if self.rng.random() < 0.5 else -hi
                 return ax
